@@ -272,7 +272,13 @@ def ladder(r, n):
     return [v for v in out if v <= 65535]
 
 
-def pick_vlen(r, big):
+def pick_vlen(r, big, num=None):
+    """value length; for numbers with a defined length limit mostly inside it (so that the
+    message stays one the parser accepts and the re-parse part of the property applies)"""
+    if num in gen_wire.LIMITS and r.random() < 0.8:
+        lo, hi = gen_wire.LIMITS[num]
+        return r.choice([lo, hi, min(hi, lo + 1), r.randint(lo, hi), min(hi, 12), min(hi, 13),
+                         min(hi, 14), min(hi, 268), min(hi, 269)])
     if big and r.random() < 0.1:
         return r.choice([4000, 65535, 65804])
     return r.choice(VLEN)
@@ -318,7 +324,8 @@ def gen_case(r, big=False):
         nums = ladder(r, nopt)
     else:
         nums = sorted(gen_wire.pick_num(r, []) for _ in range(nopt))
-    opts = [(n, gen_wire.btok(r, 0 if r.random() < 0.2 else pick_vlen(r, False))) for n in nums]
+    opts = [(n, gen_wire.btok(r, pick_vlen(r, False, n) if n in gen_wire.LIMITS or r.random() >= 0.2 else 0))
+            for n in nums]
     tl = pick_tok(r, big and r.random() < 0.3)
     tok = gen_wire.btok(r, tl)
     pl = r.choice([0, 0, 0, 1, 2, 13, 64, 300])
@@ -333,14 +340,14 @@ def gen_case(r, big=False):
         z = r.random()
         if z < 0.35:
             n = aimed_number(r, cur)
-            l = pick_vlen(r, big)
+            l = pick_vlen(r, big, n)
             edits.append(["I", str(n), gen_wire.btok(r, l)])
             cur.append(n)
             cur.sort()
             grow += l + 5
         elif z < 0.55:
             n = r.choice(cur) if cur and r.random() < 0.8 else aimed_number(r, cur)
-            l = pick_vlen(r, big)
+            l = pick_vlen(r, big, n)
             edits.append(["U", str(n), gen_wire.btok(r, l)])
             if n not in cur:
                 cur.append(n)
